@@ -1,6 +1,7 @@
 package main
 
 import (
+	"sort"
 	"fmt"
 	"os"
 	"path/filepath"
@@ -114,12 +115,17 @@ func ruleC20(c *Check, p *Prog) {
 		c.Undecided("R-EXTRACT", "rdgen.main", where, "%s", strings.Join(sum.Undecided, "; "))
 		return
 	}
-	gOut := x.globalSym(p.Global(pkgGen, "output"))
-	gS := x.globalSym(p.Global(pkgGen, "s"))
-	gN := x.globalSym(p.Global(pkgGen, "n"))
-	ldOut := S.mkOp("ld", TString, gOut)
-	ldS := S.mkOp("ld", TInt, gS)
-	ldN := S.mkOp("ld", TInt, gN)
+	// the variables behind -o, -s, -n are whatever the flag registrations bind (package-level variables or fields
+	// of one): their names are immaterial
+	regs := genFlagRegs(p, x, sum)
+	locOut, locS, locN := regs["o"], regs["s"], regs["n"]
+	if locOut == nil || locS == nil || locN == nil {
+		c.Fail("R-ANCHOR", "rdgen/flags", where, "flags -o / -s / -n are not all bound to package-level variables by flag.XxxVar (found %d registrations)", len(regs))
+		return
+	}
+	ldOut := locOut.ld(S, TString)
+	ldS := locS.ld(S, TInt)
+	ldN := locN.ld(S, TInt)
 	gos := events(sum.Top, func(e *Event) bool { return e.Kind == "go" })
 	if len(gos) != 1 || gos[0].StaticCallee == nil {
 		c.Fail("R-ANCHOR", "rdgen.main/go", where, "expected one `go worker(...)` site, found %d", len(gos))
@@ -343,7 +349,7 @@ func ruleC20(c *Check, p *Prog) {
 	var rprobs []string
 	nst := 0
 	sum.Top.Events(func(e *Event, _ []*LoopS) {
-		if e.Kind != "store" || e.Root != gOut {
+		if e.Kind != "store" || !locOut.isTarget(e) {
 			return
 		}
 		nst++
@@ -357,7 +363,7 @@ func ruleC20(c *Check, p *Prog) {
 		}
 	})
 	w.Top.Events(func(e *Event, _ []*LoopS) {
-		if e.Kind == "store" && e.Root == gOut {
+		if e.Kind == "store" && locOut.isTarget(e) {
 			rprobs = append(rprobs, "a worker writes the output variable at "+p.Pos(e.Pos))
 		}
 	})
@@ -398,34 +404,62 @@ func argAt(e *Event, i int) *Term {
 	return e.Args[i]
 }
 
-func checkGenFlags(c *Check, p *Prog, x *Ext, mainSum *Summary) {
-	S := x.S
-	// flag registrations live in the source-level init function(s)
-	type flagReg struct {
-		name string
-		def  *Term
-		v    string
+// flagLoc is the location a command-line flag is bound to: a package-level variable or a field path of one.
+type flagLoc struct {
+	name string
+	root *Term
+	path []*Term
+	def  *Term
+}
+
+func (l *flagLoc) ld(S *Store, ty TyClass) *Term {
+	return S.mkOp("ld", ty, append([]*Term{l.root}, l.path...)...)
+}
+
+func (l *flagLoc) isTarget(e *Event) bool {
+	return e.Root == l.root && samePath(e.Path, l.path)
+}
+
+// genFlagRegs collects the flag.IntVar / flag.StringVar registrations of the generator: those of the source-level
+// init functions, and those main executes (directly or through a helper) before flag.Parse().
+func genFlagRegs(p *Prog, x *Ext, mainSum *Summary) map[string]*flagLoc {
+	out := map[string]*flagLoc{}
+	reg := func(e *Event) {
+		if e.Kind != "call" || (e.Callee != "flag.IntVar" && e.Callee != "flag.StringVar") || len(e.Args) != 4 {
+			return
+		}
+		n, ok := e.Args[1].StrVal()
+		if !ok {
+			return
+		}
+		a := e.Args[0]
+		l := &flagLoc{name: n, def: e.Args[2]}
+		switch {
+		case a.K == KSym && a.Sym.Kind == SGlobal:
+			l.root = a
+		case a.Op == "addr" && len(a.Args) >= 2 && a.Args[0].K == KSym && a.Args[0].Sym.Kind == SGlobal:
+			l.root, l.path = a.Args[0], a.Args[1:]
+		default:
+			return
+		}
+		if _, dup := out[n]; !dup {
+			out[n] = l
+		}
 	}
-	var regs []flagReg
 	sp := p.SPkgs[pkgGen]
-	for name, m := range sp.Members {
-		fn, ok := m.(*ssa.Function)
+	var names []string
+	for name := range sp.Members {
+		names = append(names, name)
+	}
+	sort.Strings(names)
+	for _, name := range names {
+		fn, ok := sp.Members[name].(*ssa.Function)
 		if !ok || !strings.HasPrefix(name, "init#") {
 			continue
 		}
 		s := x.Summarize(fn, nil, nil)
-		s.Top.Events(func(e *Event, _ []*LoopS) {
-			if e.Kind == "call" && (e.Callee == "flag.IntVar" || e.Callee == "flag.StringVar") && len(e.Args) == 4 {
-				n, _ := e.Args[1].StrVal()
-				v := ""
-				if e.Args[0].K == KSym && e.Args[0].Sym.Kind == SGlobal {
-					v = e.Args[0].Sym.Canon
-				}
-				regs = append(regs, flagReg{n, e.Args[2], v})
-			}
-		})
+		s.Top.Events(func(e *Event, _ []*LoopS) { reg(e) })
 	}
-	// ... or are executed by main (directly or through a helper) before flag.Parse()
 	var parse *Event
 	mainSum.Top.Events(func(e *Event, loops []*LoopS) {
 		if e.Kind == "call" && e.Callee == "flag.Parse" && len(loops) == 0 && parse == nil {
@@ -433,38 +467,26 @@ func checkGenFlags(c *Check, p *Prog, x *Ext, mainSum *Summary) {
 		}
 	})
 	mainSum.Top.Events(func(e *Event, loops []*LoopS) {
-		if e.Kind == "call" && (e.Callee == "flag.IntVar" || e.Callee == "flag.StringVar") && len(e.Args) == 4 && len(loops) == 0 && parse != nil && e.Seq < parse.Seq && x.S.Implies(parse.Guard, e.Guard) {
-			n, _ := e.Args[1].StrVal()
-			v := ""
-			if e.Args[0].K == KSym && e.Args[0].Sym.Kind == SGlobal {
-				v = e.Args[0].Sym.Canon
-			}
-			regs = append(regs, flagReg{n, e.Args[2], v})
+		if len(loops) == 0 && parse != nil && e.Seq < parse.Seq && x.S.Implies(parse.Guard, e.Guard) {
+			reg(e)
 		}
 	})
-	want := map[string]struct {
-		v   string
-		def *Term
-	}{
-		"s": {pkgGen + ".s", S.Int(1000)},
-		"n": {pkgGen + ".n", S.Int(1000000)},
-		"o": {pkgGen + ".output", S.Str("target/data")},
-	}
+	return out
+}
+
+func checkGenFlags(c *Check, p *Prog, x *Ext, mainSum *Summary) {
+	S := x.S
+	regs := genFlagRegs(p, x, mainSum)
+	want := map[string]*Term{"s": S.Int(1000), "n": S.Int(1000000), "o": S.Str("target/data")}
 	var probs []string
-	seen := map[string]bool{}
-	for _, r := range regs {
-		w, ok := want[r.name]
-		if !ok {
+	for _, k := range []string{"s", "n", "o"} {
+		r := regs[k]
+		if r == nil {
+			probs = append(probs, "flag -"+k+" is not registered")
 			continue
 		}
-		seen[r.name] = true
-		if r.v != w.v || r.def != w.def {
-			probs = append(probs, fmt.Sprintf("flag -%s is bound to %s with default %v (documented: %v)", r.name, r.v, r.def, w.def))
-		}
-	}
-	for k := range want {
-		if !seen[k] {
-			probs = append(probs, "flag -"+k+" is not registered")
+		if r.def != want[k] {
+			probs = append(probs, fmt.Sprintf("flag -%s has default %v (documented: %v)", k, r.def, want[k]))
 		}
 	}
 	// README documents the default of -o
@@ -477,7 +499,7 @@ func checkGenFlags(c *Check, p *Prog, x *Ext, mainSum *Summary) {
 			probs = append(probs, "README does not document \"target/data\" as the default of -o")
 		}
 	}
-	c.Expect(len(probs) == 0, "R-DEFAULT-DOC", "rdgen/flags", "tools/rdgen/main.go:20", "-s/-n/-o are bound to s/n/output with defaults 1000 / 1000000 / \"target/data\", the documented default", strings.Join(probs, "; "))
+	c.Expect(len(probs) == 0, "R-DEFAULT-DOC", "rdgen/flags", "tools/rdgen/main.go:20", "-s/-n/-o are bound to the generator's variables with defaults 1000 / 1000000 / \"target/data\", the documented default", strings.Join(probs, "; "))
 }
 
 // checkDetectorAccepts evaluates the batch detector's counting filter on a generated file name.
